@@ -133,10 +133,14 @@ func genHistory(r *vlib.Rand, conflict bool) hist {
 					e.KeepStamp = true
 					dir[name] = e
 				}
-			case x < 38:
+			case x < 37:
 				gone[name] = asts[name]
 				dir[name] = progs.DirEnt{Name: name, Dir: true}
-			case x < 45: // touch: same content
+			case x < 43 && asts[name].Off == 0: // switched off without deleting it: every line commented out, or truncated
+				put(name, progs.Edit(r, asts[name], vlib.Pick(r, []string{"comment-out", "comment-out", "truncate"}), o))
+			case x < 43: // switched on again
+				put(name, progs.Edit(r, asts[name], "switch-on", o))
+			case x < 48: // touch: same content
 			case x < 65:
 				put(name, progs.Edit(r, asts[name], "syntax-error", o))
 			case x < 80:
